@@ -120,6 +120,7 @@ class Unit:
         interp = Interp(self.name, loops=self.loops, contextmanager=self.contextmanager,
                         drop=self.drop, local_types=self.local_types)
         interp.on_yield = self.on_yield
+        interp.on_augassign = getattr(self, 'on_augassign', None)
         interp.relpath = self.relpath
         interp.unit_node = node
         self._last_interp = interp
@@ -224,7 +225,21 @@ def run_unit(unit, second_solver=False, timeout_ms=None):
         out['status'] = 'defect'
         out['error'] = str(e)
     except Exception as e:
-        out['status'] = 'defect'
-        out['error'] = 'engine exception: ' + traceback.format_exc()
+        interp = getattr(unit, '_last_interp', None)
+        used_unknown = False
+        try:
+            for st_, _ in (getattr(interp, '_all_end_states', None) or []):
+                pass
+        except Exception:
+            pass
+        tb = traceback.format_exc()
+        # a sidecar that trips over a value it cannot interpret (unknown state introduced by a change: `Unknown`) could not
+        # evaluate its contract on this code: undecided, not a checker defect.  Anything else is a defect of the checker.
+        if "'Unknown' object" in tb or 'Unknown(' in tb:
+            out['status'] = 'undecided'
+            out['error'] = 'Unsupported: the sidecar met state it has no model for while evaluating its contract: ' + tb.strip().splitlines()[-1][:200]
+        else:
+            out['status'] = 'defect'
+            out['error'] = 'engine exception: ' + tb
     out['seconds'] = round(time.time() - t0, 3)
     return out
